@@ -747,6 +747,7 @@ func (c *Ctx) checkRefCodonAllGap() {
 			gap = k
 		}
 	}
+	win := codonWindowOf(fn)
 	// comparisons ref[idx[k]] == GAP
 	type cmp struct {
 		bo *ssa.BinOp
@@ -769,15 +770,7 @@ func (c *Ctx) checkRefCodonAllGap() {
 		if !ok {
 			return
 		}
-		iu, ok := ia.Index.(*ssa.UnOp)
-		if !ok {
-			return
-		}
-		iia, ok := iu.X.(*ssa.IndexAddr)
-		if !ok {
-			return
-		}
-		if k, ok := constInt(iia.Index); ok {
+		if k, ok := win.posOf(ia.Index); ok {
 			cmps = append(cmps, cmp{bo, k})
 		}
 	})
@@ -884,6 +877,7 @@ func (c *Ctx) checkRefCodonAdvance() {
 	fn := r.F
 	gap := int64('-')
 	n := 0
+	win := codonWindowOf(fn)
 	for _, lp := range naturalLoops(fn) {
 		// loop condition chain contains ref[idx[k]] == GAP as a continuation condition
 		k := int64(-1)
@@ -901,12 +895,8 @@ func (c *Ctx) checkRefCodonAdvance() {
 			}
 			if u, ok := bo.X.(*ssa.UnOp); ok {
 				if ia, ok := u.X.(*ssa.IndexAddr); ok {
-					if iu, ok := ia.Index.(*ssa.UnOp); ok {
-						if iia, ok := iu.X.(*ssa.IndexAddr); ok {
-							if kk, ok := constInt(iia.Index); ok {
-								k = kk
-							}
-						}
+					if kk, ok := win.posOf(ia.Index); ok {
+						k = kk
 					}
 				}
 			}
@@ -941,6 +931,31 @@ func (c *Ctx) checkRefCodonAdvance() {
 				}
 			}
 		}
+		// window positions kept in registers: a header φ whose back-edge value is φ+1
+		for _, in := range lp.Head.Instrs {
+			phi, ok := in.(*ssa.Phi)
+			if !ok {
+				break
+			}
+			j, ok := win.lineage[phi]
+			if !ok {
+				continue
+			}
+			for i, e := range phi.Edges {
+				if !lp.Blocks[lp.Head.Preds[i]] {
+					continue
+				}
+				if bo, ok := e.(*ssa.BinOp); ok && bo.Op == token.ADD && bo.X == ssa.Value(phi) {
+					if one, ok := constInt(bo.Y); ok && one == 1 {
+						inc[j]++
+						continue
+					}
+				}
+				if e != ssa.Value(phi) {
+					inc[j] += 100 // changed in some other way
+				}
+			}
+		}
 		okAll := true
 		for j := int64(0); j <= 2; j++ {
 			want := 0
@@ -955,4 +970,106 @@ func (c *Ctx) checkRefCodonAdvance() {
 			fmt.Sprintf("increments positions %d..2 once each", k), fmt.Sprintf("the loop that skips gaps at codon position %d increments %v (want positions %d..2 once each): the codon window no longer covers three reference nucleotides", k, inc, k))
 	}
 	L.Floor("refcodon-advance", 1, "three skipping loops (floor = half of the instances on the pinned tree: a clean-up may merge instances, a rule that sees nothing must still fail)")
+}
+
+// codonWindow: the three columns of the reference codon of TranslateByReference. On the pinned tree
+// they are the cells idx[0..2] of a slice; an implementation may as well keep them in three
+// variables (or in the fields of a cursor whose methods are inlined in the view), which SSA turns
+// into registers. Position k is then the family of registers that flow, through φ-nodes and the
+// self-increments `x = x+1` of the skipping loops, into the index of the k-th argument
+// ref[p_k] of the translateCodon call for the reference codon.
+type codonWindow struct {
+	lineage map[ssa.Value]int64
+}
+
+func (w *codonWindow) posOf(idx ssa.Value) (int64, bool) {
+	if iu, ok := idx.(*ssa.UnOp); ok && iu.Op == token.MUL {
+		if iia, ok := iu.X.(*ssa.IndexAddr); ok {
+			if k, ok := constInt(iia.Index); ok {
+				return k, true
+			}
+		}
+	}
+	if w != nil {
+		if k, ok := w.lineage[idx]; ok {
+			return k, true
+		}
+	}
+	return 0, false
+}
+
+func codonWindowOf(fn *ssa.Function) *codonWindow {
+	w := &codonWindow{lineage: map[ssa.Value]int64{}}
+	gapTested := map[ssa.Value]bool{}
+	allInstrs(fn, func(in ssa.Instruction) {
+		bo, ok := in.(*ssa.BinOp)
+		if !ok || (bo.Op != token.EQL && bo.Op != token.NEQ) {
+			return
+		}
+		if g, ok := constInt(bo.Y); !ok || g != int64('-') {
+			return
+		}
+		if u, ok := bo.X.(*ssa.UnOp); ok && u.Op == token.MUL {
+			if ia, ok := u.X.(*ssa.IndexAddr); ok {
+				gapTested[ia.Index] = true
+			}
+		}
+	})
+	allInstrs(fn, func(in ssa.Instruction) {
+		call, ok := in.(*ssa.Call)
+		if !ok || len(w.lineage) > 0 {
+			return
+		}
+		callee := call.Common().StaticCallee()
+		if callee == nil || callee.Name() != "translateCodon" || len(call.Common().Args) < 3 {
+			return
+		}
+		lin := map[ssa.Value]int64{}
+		clash := false
+		for k := 0; k < 3; k++ {
+			u, ok := call.Common().Args[k].(*ssa.UnOp)
+			if !ok || u.Op != token.MUL {
+				return
+			}
+			ia, ok := u.X.(*ssa.IndexAddr)
+			if !ok {
+				return
+			}
+			if _, isLoad := ia.Index.(*ssa.UnOp); isLoad {
+				return // cells: handled by posOf directly
+			}
+			seen := map[ssa.Value]bool{}
+			var rec func(v ssa.Value)
+			rec = func(v ssa.Value) {
+				if v == nil || seen[v] {
+					return
+				}
+				seen[v] = true
+				if old, dup := lin[v]; dup && old != int64(k) {
+					clash = true
+				}
+				lin[v] = int64(k)
+				if phi, ok := v.(*ssa.Phi); ok {
+					for _, e := range phi.Edges {
+						rec(e)
+					}
+				}
+			}
+			rec(ia.Index)
+		}
+		if clash {
+			return
+		}
+		// the reference codon is the one whose columns are compared with GAP
+		tested := false
+		for v := range lin {
+			if gapTested[v] {
+				tested = true
+			}
+		}
+		if tested {
+			w.lineage = lin
+		}
+	})
+	return w
 }
